@@ -10,7 +10,7 @@ def classify(f):
 
 def run(ctx):
     ctx.assumptions += [
-        "C06 is decided by: the naturality theorem (Props/C06.v: a structure-preserving embedding maps solutions of the generated programs to solutions, DSL/Natural.v) + C16_direct (the direct solver returns the solution the embedding needs) + C17 (the projector denotes 1 - R L^dagger under every operation); the identification of the implicit block algebra with a corner of a BlockAlg (unit = diag(1, P)) is NOT formalised: partial",
+        "C06 is decided by: the naturality theorem (Props/C06.v: a structure-preserving embedding maps solutions of the generated programs to solutions, DSL/Natural.v) + C16_direct (the direct solver returns the solution the embedding needs) + C17 (the projector denotes 1 - R L^dagger under every operation); C06_implicit_algebra / C06_implicit_similarity / C06_corner_outputs_correspond (Alg/Corner.v, CornerEmbed.v): the corner e T e of a BlockAlg by a self-adjoint block-diagonal order-zero idempotent is a BlockAlg (so C01/C02 hold for the implicit computation itself) and J x J^dagger for a partial isometry J is a least-action morphism explicit -> implicit, hence the outputs correspond; that diag(1,P) and diag(1,Psi_B) satisfy the listed equations in the algebra of series of matrices is an assumption about the concrete matrices, exercised numerically by k_implicit (partial)",
         "SuperLU / MUMPS solves and the KPM expansion are compared numerically (1e-9*scale for the direct solver on instances with O(1) gaps; 3*atol for KPM)",
     ]
     ctx.proof("Props/C06.v")
